@@ -180,12 +180,12 @@ def gen_map_case(rng):
         elif r < 0.80: toks += ['c', str(rng.randint(0, 3))]
         elif r < 0.87:
             s = (1000 + kt) if rng.random() < 0.6 else rng.choice(MAP_STATES)
-            toks += ['g', str(kt), str(s)]
+            toks += [rng.choice(['g', 'g', 'G', 'M', 'B']), str(kt), str(s)]         # get / get_boxed / get_mut / get_boxed_mut
         elif r < 0.93:
             s = (1000 + kt) if rng.random() < 0.5 else rng.choice(MAP_STATES)
-            toks += ['d', str(kt), str(s)]
+            toks += [rng.choice(['d', 'D']), str(kt), str(s)]                         # get_or_set_default / _mut
         else:
-            toks += ['s', str(kt), str(rng.choice(MAP_STATES)), str(rng.randint(0, 9))]
+            toks += [rng.choice(['s', 'S']), str(kt), str(rng.choice(MAP_STATES)), str(rng.randint(0, 9))]   # set / set_boxed
     return toks
 
 
@@ -194,7 +194,8 @@ def gen_map_cases(rng, tier):
     corpus = ["w 1 5 7 t 0 1 5 x 1 5 c 0 r 1 5".split(),                 # stamped Some, then removed: inconsistent
               "t 0 1 5 w 1 5 7 c 0 x 1 5 c 0".split(),
               "w 1 1 1 w 2 1 2 w 3 1 3 r 1 1 r 2 1 r 3 1 d 2 1003 r 1 1 r 2 1 r 3 1".split(),
-              "s 1 11 4 g 1 11 r 1 0 g 1 11 g 1 1001".split()]
+              "s 1 11 4 g 1 11 r 1 0 g 1 11 g 1 1001".split(),
+              "S 1 1001 4 g 1 1001 G 1 1001 r 1 0 M 1 1001 B 1 1001 D 1 1001".split()]       # the type-erased route, then the typed ones
     return corpus + [gen_map_case(rng) for _ in range(n)]
 
 
@@ -213,14 +214,14 @@ def map_oracle(toks, lines):
     i = 0; li = 0
     while i < len(toks):
         op = toks[i]
-        if op == 'g':
+        if op in ('g', 'G', 'M', 'B'):
             r, s = int(toks[i + 1]), int(toks[i + 2]); i += 3
             cur = st.get(r)
             exp = 'g None' if cur is None or cur[0] != s else 'g Some[%s]' % show(cur[1])
-        elif op == 's':
+        elif op in ('s', 'S'):
             r, s, v = int(toks[i + 1]), int(toks[i + 2]), int(toks[i + 3]); i += 4
             st[r] = (s, {0: v}); exp = 'u'
-        elif op == 'd':
+        elif op in ('d', 'D'):
             r, s = int(toks[i + 1]), int(toks[i + 2]); i += 3
             cur = st.get(r)
             if cur is None or cur[0] != s:
